@@ -90,6 +90,10 @@ pub struct Interp<'tcx> {
     pub fast_from_fn: bool,
     pub probe_pats: Vec<String>,
     pub moduli: Rc<Vec<i128>>,
+    /// loop peeling: (function name substring, iterations analysed separately before the loop is joined)
+    pub peel: Vec<(String, u32)>,
+    /// callee name patterns whose integer results are tracked as path facts
+    pub track_ret: Vec<String>,
     pub ret_key: u8,
     pub next_atom: usize,
     pub cur_bb: usize,
@@ -153,6 +157,8 @@ impl<'tcx> Interp<'tcx> {
             fast_from_fn: false,
             probe_pats: Vec::new(),
             moduli: Rc::new(Vec::new()),
+            peel: Vec::new(),
+            track_ret: Vec::new(),
             ret_key: 3,
             next_atom: 0,
             cur_bb: 0,
